@@ -104,6 +104,10 @@ static void handle(int argc, char** argv)
 	size_t n = 0, m = 0, r, len;
 	octet* x = 0; octet* v = 0; char* s = 0;
 	u32 tag;
+	static int first = 1;
+	/* line-buffered output: after a sanitizer abort every completed line has been delivered,
+	   so the crash is attributed to the right op */
+	if (first) setvbuf(stdout, 0, _IOLBF, 0), first = 0;
 	if (argc < 2) { printf("bad-op"); return; }
 	/* ---------------------------------------------------------------- TL / TLV */
 	if (OP("tl") && argc == 2)
